@@ -40,6 +40,13 @@ class C11(GProp):
             else:
                 t = spangen.random_text(r, ['a', 'a', 'b', 'comma', 'comma', 'semi', 'sp', 'x', 'bang'], 12 if tier == 'quick' else 24)
             add(t, g, 0 if r.chance(1, 4) else 1)
+        # the same list parser object invoked again after an invocation that failed part-way (no sink: the first bad segment
+        # fails the list): every invocation starts with an empty result
+        for i in range(300 if tier == 'quick' else 3000):
+            g = gen_list(r)
+            g = ['repeat', 0, 'inf', ['either', ['left', g, ['one', 'Semi']], ['any', 'A', 'B', 'Comma', 'Semi', 'X']]]
+            t = spangen.random_text(r, ['a', 'a', 'a', 'b', 'comma', 'comma', 'semi', 'sp', 'x'], 14)
+            add(t, g, 0)
         return out
 
     def nontrivial(self, ct, it):
